@@ -313,6 +313,13 @@ func drawSpec(rt *rapid.T, a *adapter, maxKeys int, serializableOnly bool) *spec
 		e.setID(rt, id)
 		s.entries = append(s.entries, e)
 	}
+	if len(s.entries) == 0 {
+		// every drawn key was left out (shares material with an earlier one / has no proto form, also
+		// after the redraw): about one case in 2 000 - found by the thorough tier, where the empty
+		// range below made rapid panic
+		evid.Add("cases_without_entries_skipped", 1)
+		rt.Skip("every drawn key was left out")
+	}
 	primary := rapid.IntRange(0, len(s.entries)-1).Draw(rt, "primary")
 	for i, e := range s.entries {
 		if i == primary {
